@@ -52,9 +52,9 @@ def to_matrix_indexing(axis: Union[str, int], indexing: str) -> str:
             return "i"
     elif indexing == "xyz":
         if axis == "x":
-            return "k"
-        elif axis == "y":
             return "j"
+        elif axis == "y":
+            return "k"
         elif axis == "z":
             return "i"
 
@@ -84,9 +84,9 @@ def to_cartesian_indexing(axis: Union[str, int], indexing: str) -> str:
         if axis == "i":
             return "z"
         elif axis == "j":
-            return "y"
-        elif axis == "k":
             return "x"
+        elif axis == "k":
+            return "y"
 
     raise ValueError
 
